@@ -262,6 +262,8 @@ def validate_trace(spec_dir, module, trace_path, cfg=None, timeout=900, env=None
         res["accepted"] = True
         m = re.search(r'<<\s*"BADCASES",\s*"((?:[^"\\]|\\.)*)"\s*>>', r.out, re.S)
         res["bad"] = json.loads(tla_unescape(m.group(1))) if m else []
+        m = re.search(r'<<\s*"EXTRA",\s*"((?:[^"\\]|\\.)*)"\s*>>', r.out, re.S)
+        res["extra"] = json.loads(tla_unescape(m.group(1))) if m else []
         return res
     raise ToolError("trace validation %s on %s failed unexpectedly: %s" % (module, trace_path, (r.error_text or r.out[-2000:])[:2500]))
 
